@@ -181,7 +181,7 @@ func c03MakePool(t testing.TB, now time.Time) *c03Pool {
 		valid(ec2, []string{"*.*.example"}),                           // 6  two wildcard labels
 		valid(ec1, []string{"ip.example"}, "10.0.0.1"),                // 7  IP SAN
 		{key: rs, ips: []string{"10.0.0.1"}, nb: now.Add(time.Hour), na: now.Add(90 * day)}, // 8 not yet valid, RSA
-		valid(ec2, nil, "::1"),                                            // 9
+		valid(ec2, nil, "::1", "fe80::1"),                                 // 9
 		valid(ec1, []string{"default.test"}),                              // 10
 		expired(ec2, []string{"default.test", "fallback.test"}),           // 11
 		valid(rs, []string{"fallback.test"}),                              // 12 RSA
@@ -260,6 +260,11 @@ var c03SNIs = []string{
 }
 
 var c03Locals = []string{"10.0.0.1:443", "[::1]:443", "192.0.2.7:8443", "[fe80::1%eth0]:443", "10.0.0.1", "nil"}
+
+// the IP a handshake without SNI is looked up by, per local address — written down here, not
+// asked of the code under test (IPv6 zones are not part of a certificate's IP SAN)
+var c03LocalIP = map[string]string{"10.0.0.1:443": "10.0.0.1", "[::1]:443": "::1", "192.0.2.7:8443": "192.0.2.7",
+	"[fe80::1%eth0]:443": "fe80::1", "10.0.0.1": "10.0.0.1"}
 
 var c03Defaults = []string{"", "", "default.test", "DEFAULT.Test ", "a.example", "nodefault.test", "s.example"}
 var c03Fallbacks = []string{"", "", "fallback.test", " Fallback.TEST", "b.example", "nofallback.test"}
@@ -343,7 +348,10 @@ func (w *c03World) lookup(sni, local, def, fb string, hv int) {
 	connTok := "~"
 	if local != "nil" {
 		hello.Conn = c03Conn{local: c03Addr(local), remote: c03Addr("198.51.100.9:50000")}
-		connTok = hexRunes(localIPFromConn(hello.Conn))
+		connTok = hexRunes(c03LocalIP[local])
+		if got := localIPFromConn(hello.Conn); got != c03LocalIP[local] {
+			w.o.Mon("C03 look local-ip-of-connection-wrong", map[string]any{"local": local, "got": got, "want": c03LocalIP[local]})
+		}
 	}
 	// what the client supports, per cached or stored certificate (real crypto/tls)
 	w.cache.mu.RLock()
